@@ -55,11 +55,25 @@ def check_lifecycle(ctx):
         raise AnalysisError("Executor.init_new_application/stop_application not found")
     ctx.fn("Executor.init_new_application")
     ctx.fn("Executor.stop_application")
+    def computed(fn_) -> bool:
+        """the function reaches other code by a computed name or a computed argument list (getattr(self, <expression>), f(**d)): the
+        effects it has are not all in sight of the shape rule"""
+        for n_ in ast.walk(fn_):
+            if isinstance(n_, ast.Call) and dotted(n_.func) == "getattr" and len(n_.args) >= 2 and not isinstance(n_.args[1], ast.Constant):
+                return True
+            if isinstance(n_, ast.Call) and any(k_.arg is None for k_ in n_.keywords):
+                return True
+        return False
+
     ei = E.collect(repo, ex, init, {"app_id"})
     es = E.collect(repo, ex, stop, {"app_id"})
     ctx.call_sites += ei.calls + es.calls
-    ctx.anchor("C13.R", "per-app containers written by init_new_application", len(ei.inserts), 5)
-    for cid, locs in sorted(ei.inserts.items()):
+    unread = computed(init) or computed(stop)
+    if unread:
+        ctx.note("C13.R: init_new_application / stop_application reach their steps by computed names; what a stopped application leaves behind is judged by C13.Y and C13.H only")
+    else:
+        ctx.anchor("C13.R", "per-app containers written by init_new_application", len(ei.inserts), 5)
+    for cid, locs in ([] if unread else sorted(ei.inserts.items())):
         ok = cid in es.removes
         ctx.check("C13.R", f"Executor:{cid}:removed-on-stop", ok,
                   f"init_new_application inserts an app-keyed entry into {cid} (at {locs[0]}) but stop_application never removes it: "
@@ -76,8 +90,12 @@ def check_lifecycle(ctx):
     qi = E.collect(repo, qc, hi, {f"{mp}.app_id"})
     mp2 = A.param_names(hs)[1]
     qs = E.collect(repo, qc, hs, {f"{mp2}.app_id"})
-    ctx.anchor("C13.R", "containers written on the INIT_NEW_APP message", len(qi.inserts), 6)
-    for cid, locs in sorted(qi.inserts.items()):
+    unread_q = unread or computed(hi) or computed(hs)
+    if unread_q:
+        ctx.note("C13.R: the INIT_NEW_APP / STOP_APP handlers reach their steps by computed names or argument lists; judged by C13.Y only")
+    else:
+        ctx.anchor("C13.R", "containers written on the INIT_NEW_APP message", len(qi.inserts), 6)
+    for cid, locs in ([] if unread_q else sorted(qi.inserts.items())):
         ok = cid in qs.removes
         ctx.check("C13.R", f"QNodeController:{cid}:removed-on-stop-message", ok,
                   f"handling INIT_NEW_APP inserts an app-keyed entry into {cid} (at {locs[0]}) that handling STOP_APP never removes", locs[0],
@@ -90,7 +108,93 @@ def check_lifecycle(ctx):
             if isinstance(n, ast.Dict):
                 d = {A.norm(k): A.norm(v) for k, v in zip(n.keys, n.values)}
                 ok = d.get("MessageType.INIT_NEW_APP") == "self._handle_init_new_app" and d.get("MessageType.STOP_APP") == "self._handle_stop_app"
+        if not ok and computed(gm):
+            ctx.note("C13.R: the message-handler table is built by computed names; that INIT_NEW_APP / STOP_APP reach their handlers is judged by C13.Y only")
+            return
     ctx.check("C13.R", "QNodeController:init/stop-handlers-registered", ok, "INIT_NEW_APP / STOP_APP are not routed to _handle_init_new_app / _handle_stop_app", qc.loc(gm) if gm else "")
+
+
+def _holdings(w):
+    """what the controller, its executor and the shared-memory registry hold per key: every dict / set / list field -> its keys / size"""
+    out = {}
+    for who, o in (("controller", w.ctrl), ("executor", w.executor)):
+        for f_, v_ in o.fields.items():
+            if isinstance(v_, dict):
+                out[f"{who}.{f_}"] = sorted(map(repr, v_.keys()))
+            elif isinstance(v_, (set, frozenset)):
+                out[f"{who}.{f_}"] = sorted(map(repr, v_))
+    for (q_, a_), v_ in (w.sc.__dict__.get("class_attrs") or {}).items():
+        if q_.endswith("SharedMemoryManager") and isinstance(v_, dict):
+            out[f"SharedMemoryManager.{a_}"] = sorted(map(repr, v_.keys()))
+    return out
+
+
+def _run_lifecycle(ctx, seq):
+    """one history of INIT_NEW_APP / subroutine / STOP_APP messages through the repository's QNodeController -> None or (obligation, text)"""
+    from .. import session as S
+    w = S.HostWorld(ctx, "generic", 3)
+    msgs = ctx.repo.module("netqasm.backend.messages")
+    base = _holdings(w)
+    live, done = [], []
+    k = 0
+
+    def handle(msg):
+        nonlocal k
+        k += 1
+        return S.outcome(w.I.method, w.ctrl, "handle_netqasm_message", [], {"msg_id": k, "msg": msg}, None)
+
+    def tell():
+        return ", ".join(f"{a_}({b_})" for a_, b_ in done)
+    for op, app in seq:
+        done.append((op, app))
+        if op == "init":
+            r_ = handle(w.I.construct(msgs.classes["InitNewAppMessage"], [], {"app_id": app, "max_qubits": 2}, None))
+            if r_[0] != "ok":
+                return ("an-application-can-register:also-after-an-earlier-one-with-its-id-stopped", f"{tell()}: INIT_NEW_APP for application {app} is answered with {r_[1:3]}")
+            live.append(app)
+        elif op == "run":
+            ew = S.ExecutorWorld.__new__(S.ExecutorWorld)
+            ew.ctx, ew.repo, ew.ev, ew.I, ew.parser_mod = ctx, ctx.repo, ctx.ev, w.I, ctx.repo.module("netqasm.lang.parsing.text")
+            sub = S.ExecutorWorld.parse(ew, f"# NETQASM 1.0\n# APPID {app}\nset R0 1\narray R0 @0\nstore R0 @0[0]\nset Q0 0\nqalloc Q0\ninit Q0\nret_reg R0\nret_arr @0\nqfree Q0\n")
+            r_ = handle(w.I.construct(msgs.classes["SubroutineMessage"], [sub], {}, None))
+            if r_[0] != "ok":
+                return ("subroutines-of-a-registered-application-run", f"{tell()}: the subroutine of application {app} is answered with {r_[1:3]}")
+        else:
+            r_ = handle(w.I.construct(msgs.classes["StopAppMessage"], [], {"app_id": app}, None))
+            if r_[0] != "ok":
+                return ("a-registered-application-can-be-stopped", f"{tell()}: STOP_APP for application {app} is answered with {r_[1:3]}")
+            live.remove(app)
+        if not live:
+            now = _holdings(w)
+            left = {f_: [x_ for x_ in v_ if x_ not in base.get(f_, [])] for f_, v_ in now.items()}
+            left = {f_: v_ for f_, v_ in left.items() if v_ and not f_.endswith("_finished_messages") and "subroutine" not in f_.lower() and "program_counter" not in f_.lower()}
+            if left:
+                return ("after-the-last-stop-nothing-of-an-application-is-left", f"{tell()}: every application has been stopped, but these entries remain: {left}")
+    return None
+
+
+def check_lifecycle_executed(ctx, rule="C13.Y"):
+    """INIT_NEW_APP / STOP_APP through the repository's QNodeController (own constructor, own executor), on bounded histories: an
+    application registers, runs a subroutine (registers, an array, a qubit, both return instructions), stops; afterwards no dict / set
+    of the controller, its executor or the shared-memory registry holds an entry it did not hold before the first registration, and the
+    same id registers again."""
+    from .. import session as S
+    seqs = [(("init", 0), ("stop", 0)), (("init", 0), ("stop", 0), ("init", 0), ("stop", 0)), (("init", 0), ("run", 0), ("stop", 0), ("init", 0), ("run", 0), ("stop", 0)),
+            (("init", 0), ("init", 1), ("run", 0), ("stop", 0), ("run", 1), ("stop", 1)), (("init", 1), ("run", 1), ("init", 0), ("stop", 1), ("run", 0), ("init", 1), ("run", 1), ("stop", 0), ("stop", 1)),
+            (("init", 0), ("run", 0), ("run", 0), ("stop", 0), ("init", 1), ("stop", 1))]
+    bad = {}
+    try:
+        for res in S.parallel_map(ctx, _run_lifecycle, seqs, jobs=6):
+            if res is not None:
+                bad.setdefault(res[0], res[1])
+    except AnalysisError as ex_:
+        ctx.error(rule, f"the controller cannot be driven through the message histories: {ex_}")
+        return
+    ctx.anchor(rule, "message histories through the controller", len(seqs), 6)
+    qc = ctx.repo.get_class("netqasm.backend.qnodeos", "QNodeController")
+    for key in ("an-application-can-register:also-after-an-earlier-one-with-its-id-stopped", "subroutines-of-a-registered-application-run", "a-registered-application-can-be-stopped",
+                "after-the-last-stop-nothing-of-an-application-is-left"):
+        ctx.check(rule, key, key not in bad, bad.get(key, ""), qc.loc(qc.node), sample={"histories": len(seqs)})
 
 
 def unit_module_locals(fn) -> Set[str]:
@@ -184,6 +288,11 @@ def check_used_set(ctx, rule="C13.U"):
             ctx.check(rule, f"{name}:stored-address-is-in-used-set", ok,
                       f"{name} stores `{v.id}` into a unit module but not every source of it is added to {USED}: {sources}", repo.loc(m, st),
                       sample={"function": name, "sources": [(a, b) for a, b, c in sources]})
+    if stores == 0:
+        # the executor writes its unit modules through an object of its own (a slot / view class), not by a subscript store in its methods:
+        # nothing here for the shape rule to read.  That the in-use set is exactly the mapped set is decided on executed histories (C13.H)
+        ctx.note(f"{rule}: no method of the executor stores into a unit module directly; the bookkeeping is judged by the executed histories of C13.H / C09.H only")
+        return
     ctx.anchor(rule, "stores into a unit module", stores, 2)
     # mark-then-map: once an address is marked in use, every way out of the function (return or raise) maps it or hands it on
     from ..flow import CFG, header_parts
@@ -518,6 +627,11 @@ def check_alloc_guards(ctx, rule="C13.G"):
     ctx.fn("Executor._free_physical_qubit")
     ums = unit_module_locals(al)
     stores = [st for st in A.body_nodes(al) if isinstance(st, ast.Assign) and isinstance(st.targets[0], ast.Subscript) and isinstance(st.targets[0].value, ast.Name) and st.targets[0].value.id in ums]
+    if not stores:
+        # (written through an object of the executor's own - see check_used_set; double allocation, out-of-range ids and frees of free
+        # qubits are decided on executed programs by C04.D and the histories of C13.H / C09.H)
+        ctx.note(f"{rule}: _allocate_physical_qubit does not store into the unit module by a subscript of its own; its guards are judged by C04.D / C13.H / C09.H only")
+        return
     if len(stores) != 1:
         ctx.error(rule, f"_allocate_physical_qubit: expected one unit-module store, found {len(stores)}")
         return
@@ -730,6 +844,7 @@ def run(ctx):
     check_fault_atomicity(ctx, "C13.U")
     check_indexing(ctx)
     check_alloc_guards(ctx, "C13.G")
+    check_lifecycle_executed(ctx, "C13.Y")
     # a delivered physical qubit is mapped once: every keep-response is consumed exactly once (a response handled twice maps its
     # physical qubit to two virtual qubits); the consumption loop is executed abstractly over all short pending lists (shared with C12)
     from . import c12
@@ -748,6 +863,10 @@ def run(ctx):
 X = "netqasm/backend/executor.py"
 Q = "netqasm/backend/qnodeos.py"
 SEEDS = [
+    dict(id="c13-stop-message-keeps-the-app-registered", file="netqasm/backend/qnodeos.py", expect="C13.Y", construct="",
+         old="        app_id = msg.app_id\n        self._remove_app(app_id=app_id)\n        self._logger.debug(f\"Stopping application", new="        app_id = msg.app_id\n        self._logger.debug(f\"Stopping application"),
+    dict(id="c13-stop-message-skips-the-executor", file="netqasm/backend/qnodeos.py", expect="C13.Y", construct="",
+         old="        yield from self._executor.stop_application(app_id=app_id)\n", new="        yield from ()\n"),
     dict(id="c13-mark-before-slot-test", file=X, expect="C13.U", construct="marked-address-is-mapped",
          old="        if unit_module[virtual_address] is None:\n            if physical_address is None:\n                physical_address = self._get_unused_physical_qubit()\n            self._used_physical_qubit_addresses.add(physical_address)\n            unit_module[virtual_address] = physical_address",
          new="        if physical_address is None:\n            physical_address = self._get_unused_physical_qubit()\n        if unit_module[virtual_address] is None:\n            self._used_physical_qubit_addresses.add(physical_address)\n            unit_module[virtual_address] = physical_address"),
